@@ -67,6 +67,13 @@ TStep(m0, r) ==
                  \o [i \in 1..Len(unkSc) |-> Flag("normalisation names a syscall that is in no architecture's table: " \o unkSc[i])],
                       !.normSyscalls = @ \cup { r.syscalls[i] : i \in 1..Len(r.syscalls) },
                       !.normPlainTypes = IF plain THEN @ \cup { r.record_types[i] : i \in 1..Len(r.record_types) } ELSE @]
+    ELSE IF r.k = "typename" THEN
+        \* from the name side: a name the table lists resolves to a number, and that number prints as a name
+        \* (the same one, or an alias that resolves to the same number) - never as UNKNOWN[n]
+        [m EXCEPT !.flags = IF r.code < 0 THEN << Flag("a record type name of the table does not resolve to a number: " \o r.name) >>
+                            ELSE IF r.again_is_unknown_form \/ r.again_code # r.code
+                            THEN << Flag("a record type that has a name does not print as one that maps back to it: " \o r.name) >>
+                            ELSE << >>]
     ELSE IF r.k = "select" THEN
         \* one event, coalesced at some point of a long, reordered run: the entry it selects (seen as its action)
         \* is the table's, whatever was coalesced before
